@@ -32,7 +32,7 @@ OPS = [((3, b"k", None), b"VALUE k 0 1\r\nv\r\nEND\r\n"), ((0, 0, b"k", b"v", 0,
        ((9, b"k", False), b"DELETED\r\n"), ((1, [(b"a", b"1"), (b"b", b"2")], 0, False, None), b"STORED\r\nSTORED\r\n"),
        ((15,), b"VERSION 1\r\n"), ((7, False, [b"a", b"b"]), b"VALUE a 0 1\r\nx\r\nEND\r\n"), ((11, b"k", 1, False), b"5\r\n"),
        ((0, 0, b"k", b"v", 0, True, None), None), ((2, b"k", b"v", b"7", 0, False, None), b"EXISTS\r\n"),
-       ((13, b"k", 0, False), b"TOUCHED\r\n"), ((14, 0, False), b"OK\r\n"), ((16, b"x", b"\r\n"), b"y\r\n"), ((17,), None)]
+       ((13, b"k", 0, False), b"TOUCHED\r\n"), ((14, 0, False), b"OK\r\n"), ((16, b"x", b"\r\n"), b"y\r\n"), ((17,), None), ((23, 64), b"OK\r\n"), ((24, False), b"ERROR\r\n")]
 FOLLOW = [((9, b"j", False), b"NOT_FOUND\r\n"), ((3, b"j", None), b"END\r\n"), ((0, 1, b"j", b"w", 0, False, None), b"NOT_STORED\r\n")]
 CONFIGS = [dict(tcp=False), dict(tcp=True, naddr=2), dict(tcp=True, naddr=1, tls=True, ignore_exc=True)]
 
@@ -69,7 +69,7 @@ def correspondence(ctx):
         if tuple(r[:6]) != tuple(mm[:6]):
             dis.append({"cfg": repr(c), "ops": repr(ops)[:120], "script": repr(sc), "choices": repr(ch), "impl": repr((r[0], r[2])), "model": repr((mm[0], mm[2]) if len(mm) > 2 else mm)})
     # pooled
-    pooled = [(c, (size, 0), ops, sc, ch, rbo) for (c, ops, sc, ch, rbo) in cl[::7] for size in (1, 2) if not c.get("tls")]
+    pooled = [(c, (size, 0), ops, sc, ch, rbo) for (c, ops, sc, ch, rbo) in cl[::7] for size in (1, 2) if not c.get("tls") and ops[0][0] != 23]   # PooledClient has no cache_memlimit
     pm = ctx.driver.call_many([cs.pooled_req(c, pc, ops, sc, ch, [rbo[i] for i in range(len(ops))], [], hk, hp) for c, pc, ops, sc, ch, rbo in pooled])
     for (c, pc, ops, sc, ch, rbo), m in zip(pooled, pm):
         r = cs.run_pooled(c, pc, ops, sc, ch, [rbo[i] for i in range(len(ops))])
@@ -78,7 +78,7 @@ def correspondence(ctx):
             dis.append({"pooled": True, "cfg": repr(c), "pool": pc, "ops": repr(ops)[:120], "script": repr(sc), "choices": repr(ch), "impl": repr(r[0]), "model": repr(mm[0] if len(mm) > 1 else mm)})
     return {"evaluations": len(cl) + len(pooled), "distinct_nontrivial": len(cl) + len(pooled),
             "rule": "extracted Client and PooledClient models vs the real classes (results, full socket traces, pool used/free "
-                    "counts): 13 operations (incl. quit) x 3 follow-up operations (twice) x 3 configurations x KeyboardInterrupt/SystemExit/"
+                    "counts): 15 operations (incl. quit, cache_memlimit, shutdown) x 3 follow-up operations (twice) x 3 configurations x KeyboardInterrupt/SystemExit/"
                     "greenlet timeout at EVERY non-recv socket call position 0..8 and at each of the first 3 recv calls, and raised inside "
                     "sendall AFTER the bytes were taken (the reply will arrive); pooled "
                     "with max_pool_size 1 and 2; every case is non-trivial (one interruption)",
@@ -111,7 +111,7 @@ def search(ctx):
     n = 0
     for c, ops, sc, ch, rbo in cl:
         for pooled_size in (None, 1):
-            if pooled_size and c.get("tls"):
+            if pooled_size and (c.get("tls") or ops[0][0] == 23):
                 continue
             n += 1
             if pooled_size:
